@@ -25,12 +25,14 @@ make_cfg()                                   -> Config (tracing off)
 make_sources(n, weights=None)                -> list of PointLikeSource  (names S0..; dec spread; weight w_k)
 make_shg_mgr(cfg, sources, group_sizes=None) -> SourceHypoGroupManager; group_sizes e.g. [2, 1] splits the
                                                 source list into consecutive hypothesis groups (default: one)
-make_pmm(sources, params=(), ns_init=1.0, ns_max=1e9, ns_min=None, detector='first')
+make_pmm(sources, params=(), ns_init=1.0, ns_max=1e9, ns_min=None, detector='first', ns_last=False)
                                              -> ParameterModelMapper with models [DetectorModel('det')] + sources
                                                 ('first'|'last'|None), global parameter 'ns' mapped to the
                                                 detector model (or to all sources when detector=None) and then
                                                 every entry of ``params``:  (Parameter, models|None, local names|None)
-                                                or a bare Parameter (mapped to all sources)
+                                                or a bare Parameter (mapped to all sources); ``params`` may also be a
+                                                callable(sources) -> such a list; ns_last=True maps 'ns' after them
+                                                (so that ns is not the floating parameter with index 0)
 make_param(name, initial, vmin, vmax, fixed=False) -> Parameter
 make_events(n, **fields)                     -> DataFieldRecordArray with fields eid=0..n-1 (int64) + given arrays
 make_tdm(shg_mgr, pmm, events, n_events=None, evt_sel_method=None, index_field_name=None)
@@ -56,12 +58,17 @@ StubSigPDF(cfg, S, share=False) / StubBkgPDF(cfg, B, share=False)
                                              -> PDF + IsSignalPDF / IsBackgroundPDF with prescribed densities for the real
                                                 SigOverBkgPDFRatio: S (K, E) per (source, eid), B (E,) per eid (zeros allowed);
                                                 ``share`` / ``.snapshot()`` as for StubPDFRatio
-StubDetSigYield(Y, dY=None, param_names=())  -> DetSigYield for one (dataset, group): Y (n_src_of_group,) array or
-                                                callable(params_of_group)->array; dY: dict local-name -> array|callable
+StubDetSigYield(Y, dY=None, param_names=(), src_factor=None)
+                                             -> DetSigYield for one (dataset, group): Y (n_src_of_group,) array or
+                                                callable(params_of_group)->array; dY: dict local-name -> array|callable;
+                                                src_factor: None | callable(src_recarray)->(n_src,) multiplied onto Y and dY
+                                                (the yield then follows the source: src_recarray has fields ra, dec)
 StubDetSigYieldService(shg_mgr, arr)         -> DetSigYieldService holding the (J, G) object array ``arr``
-make_detsigyield_service(shg_mgr, Y, dY=None)-> StubDetSigYieldService from a yield table Y (J, K) (array or
+make_detsigyield_service(shg_mgr, Y, dY=None, src_factor=None)
+                                             -> StubDetSigYieldService from a yield table Y (J, K) (array or
                                                 callable(params)->(J, K)); dY: dict local-name -> (J, K) array|callable
-make_weight_services(shg_mgr, Y, dY=None)    -> (detsigyield_service, SrcDetSigYieldWeightsService,
+make_weight_services(shg_mgr, Y, dY=None, src_factor=None)
+                                             -> (detsigyield_service, SrcDetSigYieldWeightsService,
                                                 DatasetSignalWeightFactorsService)   [the last two are real]
 make_minimizer(cfg)                          -> Minimizer(LBFGSMinimizerImpl)
 make_single_llhratio(cfg, pmm, shg_mgr, tdm, pdfratio, minimizer=None)
@@ -76,6 +83,9 @@ build_stacked_analysis(cfg, W, Y, Rs, Ns, group_sizes=None, params=(), masks=Non
                                                 (>= E_j, or None = default), masks[j] optional (K, E_j) event-selection masks;
                                                 keyword share=False is passed to the StubPDFRatios
 fitparam_values(pmm, ns, **others)           -> (n_floating,) array in the pmm's floating-parameter order
+is_fixture_error(exc)                        -> True when the exception was raised by harness code (innermost traceback frame
+                                                under /harness/), i.e. a machinery error, not a failure of skyllh
+reraise_fixture_error(exc)                   -> raises harness.core.MachineryError in that case, else returns
 """
 import collections
 
@@ -143,7 +153,7 @@ def make_param(name, initial, vmin, vmax, fixed=False):
     return p
 
 
-def make_pmm(sources, params=(), ns_init=1.0, ns_max=1e9, ns_min=None, detector='first'):
+def make_pmm(sources, params=(), ns_init=1.0, ns_max=1e9, ns_min=None, detector='first', ns_last=False):
     from skyllh.core.model import DetectorModel
     from skyllh.core.parameters import Parameter, ParameterModelMapper
     if ns_min is None:
@@ -154,7 +164,13 @@ def make_pmm(sources, params=(), ns_init=1.0, ns_max=1e9, ns_min=None, detector=
         det = DetectorModel('det')
         models = [det] + models if detector == 'first' else models + [det]
     pmm = ParameterModelMapper(models=models)
-    pmm.map_param(Parameter('ns', ns_init, ns_min, ns_max), models=det if det is not None else list(sources))
+
+    def map_ns():
+        pmm.map_param(Parameter('ns', ns_init, ns_min, ns_max), models=det if det is not None else list(sources))
+    if callable(params):
+        params = params(sources)
+    if not ns_last:
+        map_ns()
     for entry in params:
         if isinstance(entry, (tuple, list)):
             (p, ms, names) = (list(entry) + [None, None])[:3]
@@ -169,6 +185,8 @@ def make_pmm(sources, params=(), ns_init=1.0, ns_max=1e9, ns_min=None, detector=
                 by_id = {m.id: nm for m, nm in zip(ms_l, names)}
                 names = [by_id.get(m.id, p.name) for m in models]
         pmm.map_param(p, models=ms, model_param_names=names)
+    if ns_last:
+        map_ns()
     return pmm
 
 
@@ -368,10 +386,11 @@ def _stub_classes():
             return self.table[eid]
 
     class StubDetSigYield(DetSigYield):
-        def __init__(self, Y, dY=None, param_names=()):
+        def __init__(self, Y, dY=None, param_names=(), src_factor=None):
             # the abstract base wants a Dataset / FluxModel / livetime; they are not used by the services
             self.Y = Y
             self.dY = dict(dY or {})
+            self.src_factor = src_factor
             self._param_names = tuple(param_names) or tuple(self.dY.keys())
 
         def sources_to_recarray(self, sources):
@@ -383,28 +402,34 @@ def _stub_classes():
         def __call__(self, src_recarray, src_params_recarray):
             params = _params_dict(src_params_recarray)
             values = np.array(_val(self.Y, params), dtype=np.float64)
+            fac = None
+            if self.src_factor is not None:
+                # the yield follows the *source* (its position in the sky), as real detector signal yields do
+                fac = np.asarray(self.src_factor(src_recarray), dtype=np.float64)
+                values = values * fac
             grads = dict()
             for name, d in self.dY.items():
                 if src_params_recarray is None or name not in src_params_recarray.dtype.fields:
                     continue
                 gp = np.asarray(src_params_recarray[name + ':gpidx'])
                 dv = _val(d, params)
+                if fac is not None:
+                    dv = dv * fac
                 for g in np.unique(gp[gp > 0]):
                     arr = grads.setdefault(int(g) - 1, np.zeros((len(values),), dtype=np.float64))
                     arr += np.where(gp == g, dv, 0.0)
             return (values, grads)
 
     class StubDetSigYieldService(DetSigYieldService):
+        """built through the public constructor; only the construction of the DetSigYield array is replaced"""
         def __init__(self, shg_mgr, arr):
-            self._set_shg_mgr(shg_mgr)
-            self._dataset_list = []
-            self._data_list = []
             arr = np.asarray(arr, dtype=object)
             assert arr.ndim == 2 and arr.shape[1] == shg_mgr.n_src_hypo_groups
-            self._arr = arr
+            self.stub_arr = arr
+            super().__init__(shg_mgr=shg_mgr, dataset_list=[], data_list=[])
 
-        def change_shg_mgr(self, shg_mgr, ppbar=None):
-            self._set_shg_mgr(shg_mgr)
+        def construct_detsigyield_array(self, ppbar=None):
+            return self.stub_arr
 
     _STUB_CLASSES.update(StubEventSelection=StubEventSelection, StubPDFRatio=StubPDFRatio,
                          StubDetSigYield=StubDetSigYield, StubDetSigYieldService=StubDetSigYieldService,
@@ -429,8 +454,8 @@ def StubBkgPDF(cfg, B, share=False):
     return _stub_classes()['StubBkgPDF'](cfg, B, share=share)
 
 
-def StubDetSigYield(Y, dY=None, param_names=()):
-    return _stub_classes()['StubDetSigYield'](Y, dY=dY, param_names=param_names)
+def StubDetSigYield(Y, dY=None, param_names=(), src_factor=None):
+    return _stub_classes()['StubDetSigYield'](Y, dY=dY, param_names=param_names, src_factor=src_factor)
 
 
 def StubDetSigYieldService(shg_mgr, arr):
@@ -456,7 +481,7 @@ def _slice_fn(x, j, sl, K):
     return f
 
 
-def make_detsigyield_service(shg_mgr, Y, dY=None):
+def make_detsigyield_service(shg_mgr, Y, dY=None, src_factor=None):
     K = shg_mgr.n_sources
     J = (np.asarray(Y(_nan_params(dY, K))) if callable(Y) else np.asarray(Y)).shape[0]
     G = shg_mgr.n_src_hypo_groups
@@ -467,7 +492,7 @@ def make_detsigyield_service(shg_mgr, Y, dY=None):
             sl = slice(i, i + shg.n_sources)
             arr[j, g] = StubDetSigYield(
                 _slice_fn(Y, j, sl, K),
-                dY={name: _slice_fn(d, j, sl, K) for name, d in (dY or {}).items()})
+                dY={name: _slice_fn(d, j, sl, K) for name, d in (dY or {}).items()}, src_factor=src_factor)
             i += shg.n_sources
     return StubDetSigYieldService(shg_mgr, arr)
 
@@ -476,9 +501,9 @@ def _nan_params(dY, K):
     return collections.defaultdict(lambda: np.full((K,), 1.0))
 
 
-def make_weight_services(shg_mgr, Y, dY=None):
+def make_weight_services(shg_mgr, Y, dY=None, src_factor=None):
     from skyllh.core.services import DatasetSignalWeightFactorsService, SrcDetSigYieldWeightsService
-    dsy = make_detsigyield_service(shg_mgr, Y, dY=dY)
+    dsy = make_detsigyield_service(shg_mgr, Y, dY=dY, src_factor=src_factor)
     sdw = SrcDetSigYieldWeightsService(detsigyield_service=dsy)
     dswf = DatasetSignalWeightFactorsService(src_detsigyield_weights_service=sdw)
     return (dsy, sdw, dswf)
@@ -508,7 +533,8 @@ Bundle = collections.namedtuple(
 
 
 def build_stacked_analysis(cfg, W, Y, Rs, Ns, group_sizes=None, params=(), masks=None, dR=None, dY=None,
-                           weighted=True, index_field_name=None, event_fields=None, share=False):
+                           weighted=True, index_field_name=None, event_fields=None, share=False, src_factor=None,
+                           ns_last=False):
     """J datasets, K sources.  W (K,), Y (J, K) [array or callable], Rs[j] (K, E_j) [array or callable],
     Ns[j] >= E_j total events, masks[j] None | (K, E_j) bool, dR: None | list over j of dict name -> table,
     event_fields: None | list over j of dict of extra event fields.  With weighted=False (K must be 1 or the
@@ -520,8 +546,8 @@ def build_stacked_analysis(cfg, W, Y, Rs, Ns, group_sizes=None, params=(), masks
     J = len(Rs)
     sources = make_sources(K, weights=W)
     shg_mgr = make_shg_mgr(cfg, sources, group_sizes=group_sizes)
-    pmm = make_pmm(sources, params=params)
-    (dsy, sdw, dswf) = make_weight_services(shg_mgr, Y, dY=dY)
+    pmm = make_pmm(sources, params=params, ns_last=ns_last)
+    (dsy, sdw, dswf) = make_weight_services(shg_mgr, Y, dY=dY, src_factor=src_factor)
     tdms, inner, outer, llhs = [], [], [], []
     for j in range(J):
         Rj = Rs[j]
@@ -540,3 +566,19 @@ def build_stacked_analysis(cfg, W, Y, Rs, Ns, group_sizes=None, params=(), masks
         llhs.append(make_single_llhratio(cfg, pmm, shg_mgr, tdm, r))
     multi = make_multi_llhratio(cfg, pmm, sdw, dswf, llhs)
     return Bundle(cfg, sources, shg_mgr, pmm, tdms, outer, inner, llhs, multi, (dsy, sdw, dswf))
+
+
+def is_fixture_error(exc):
+    import traceback
+    tb = traceback.extract_tb(exc.__traceback__)
+    return bool(tb) and '/harness/' in tb[-1].filename.replace('\\', '/')
+
+
+def reraise_fixture_error(exc):
+    """an exception raised by the stubs / builders themselves is a defect of the machinery (exit 2), never a
+    property violation"""
+    if is_fixture_error(exc):
+        import traceback
+        from harness.core import MachineryError
+        raise MachineryError('fixture error: %s: %s\n%s' % (
+            type(exc).__name__, exc, ''.join(traceback.format_tb(exc.__traceback__)[-3:])))
